@@ -327,3 +327,78 @@ def h5(proj, rep, class_quals):
                 rep.ok('H5', f'{cq}.{name}', 'recomputed from the gate list on every call', m, fn, text=f'{cq}.{name} memo')
     rep.count('H5.query_methods', n)
     return n
+
+
+# ------------------------------------------------------------------------------------------------ H6 / O4
+RULE_H6 = ('H6: a lazily computed (memo) field of an object is only ever set by the computation guarded with `if self.<field> is None` or reset to None: it '
+           'is never copied from another object. A copy is only right when both objects have the same source data; the inverse / product / shifted copy '
+           'of an operator does not (e.g. the sign of the inverse is the conjugate).')
+RULE_O4 = ('O4: the source array of a memoising class (PauliOperator.F2) is never written through from outside the class (`op.F2[i] = ...`): the lazily '
+           'computed fields (sign, string, matrices) would keep the value computed before the write.')
+
+
+def h6(proj, rep, class_quals):
+    rep.rule('H6', RULE_H6)
+    n = 0
+    for cq in class_quals:
+        ci = proj.cls(cq)
+        m = ci.module
+        rep.touch(m)
+        memo = set(discover_memo(proj, ci))
+        if not memo:
+            rep.undecided('H6', cq, 'no memo fields discovered', m, ci.node, text=cq)
+            continue
+        rep.note(f'H6.{cq}.memo_fields', sorted(memo))
+        for name, fi in ci.methods.items():
+            for s in ast.walk(fi.node):
+                if not isinstance(s, ast.Assign):
+                    continue
+                tg = []
+                for t in s.targets:
+                    tg += list(t.elts) if isinstance(t, ast.Tuple) else [t]
+                hit = [t for t in tg if isinstance(t, ast.Attribute) and t.attr in memo and isinstance(t.value, ast.Name)]
+                if not hit:
+                    continue
+                n += 1
+                owner = hit[0].value.id
+                vals = list(s.value.elts) if isinstance(s.value, ast.Tuple) else [s.value]
+                copied = [v for v in vals if isinstance(v, ast.Attribute) and v.attr in memo and isinstance(v.value, ast.Name) and v.value.id != owner]
+                if copied:
+                    rep.violation('H6', f'{cq}.{name}', f'`{ast.unparse(s)[:90]}` copies the memoised field(s) {sorted({v.attr for v in copied})} from another object: they were '
+                                  f'computed from the data of THAT object, which differs (here: the phase bits of the result were just changed)', m, s)
+                else:
+                    rep.ok('H6', f'{cq}.{name}', f'`{ast.unparse(s)[:60]}`: memo field set from the own data of the object / reset', m, s)
+    rep.count('H6.memo_field_stores', n)
+    return n
+
+
+def o4(proj, rep, class_qual, field):
+    rep.rule('O4', RULE_O4)
+    ci = proj.cls(class_qual)
+    n = 0
+    for fi in proj.iter_functions():
+        if fi.cls is ci:
+            continue
+        m = fi.module
+        for s in ast.walk(fi.node):
+            tgt = None
+            if isinstance(s, ast.Assign) and isinstance(s.targets[0], ast.Subscript):
+                tgt = s.targets[0]
+            elif isinstance(s, ast.AugAssign) and isinstance(s.target, ast.Subscript):
+                tgt = s.target
+            if tgt is None:
+                continue
+            base = tgt.value
+            while isinstance(base, ast.Subscript):
+                base = base.value
+            if isinstance(base, ast.Attribute) and base.attr == field:
+                n += 1
+                rep.touch(m)
+                rep.violation('O4', fi.qual, f'`{ast.unparse(s)[:80]}` writes into `.{field}` of a {class_qual.rsplit(".", 1)[1]} from outside the class: its lazily computed '
+                              f'fields (sign / string / matrices) are not invalidated and may already hold values computed before the write', m, s)
+    # positive control: the attribute is read outside the class somewhere
+    reads = sum(1 for fi in proj.iter_functions() if fi.cls is not ci for x in ast.walk(fi.node) if isinstance(x, ast.Attribute) and x.attr == field)
+    rep.count('O4.external_reads', reads)
+    if n == 0:
+        rep.ok('O4', class_qual, f'{reads} external reads of .{field}, no external write', ci.module, ci.node, text=f'{class_qual}.{field} external writes')
+    return reads
